@@ -658,11 +658,44 @@ def prepare(ctx):
     return True
 
 
+def replay(ctx, rp, judge_factory=Judge):
+    """bin/check C03 --replay <file>: re-run the recorded history on the real code and on the model, print the first
+    line on which the oracle fails or the two disagree.  Exit 1 when the recorded failure reproduces."""
+    r = rp.get("replay", {})
+    hist = r.get("history") or (r.get("first_disagreement") or {}).get("history") or r.get("history_tail")
+    if not hist:
+        print("nothing replayable in this file (a broken obligation without a concrete history)")
+        return 2
+    stream = str(r.get("stream") or r.get("broken_correspondence") or "")
+    exe, err = build(ctx, "release" if "release" in stream else ("debug" if "debug" in stream else "optda"))
+    if exe is None:
+        print(err)
+        return 2
+    C.sh(["lake", "build", "drv_c03"], cwd=C.LEAN, timeout=3000)
+    rc, impl, _ = C.run_filter([exe], hist)
+    rc, model, _ = C.run_filter([C.driver_path("drv_c03")], hist)
+    j = judge_factory()
+    bad = 0
+    if len(impl) < len(hist):
+        print("the harness died at: %s" % hist[len(impl)])
+        return 1
+    for c_, a, b in zip(hist, impl, model):
+        why = j(c_, a)
+        if why or a != b:
+            print("op:    %s\nimpl:  %s\nmodel: %s\n%s" % (c_, a[:1500], b[:1500], ("ORACLE: " + why) if why else "DISAGREEMENT"))
+            bad = 1
+            break
+    if not bad:
+        print("history of %d lines replayed: oracle satisfied, implementation and model agree" % len(hist))
+    return bad
+
+
 RULE = ("cases = histories of malloc/calloc/realloc/free over named blocks; sizes drawn from every small-bin boundary +-1, tree-bin "
         "boundaries +-8/16, remainder edges relative to freed sizes, the 64 KiB mapping granularity +-, up to 32 MiB; alignments 1..8192; "
         "free order LIFO/FIFO/random/every-other; realloc grow/shrink; mmap placement policies (below the lowest mapping as Linux does, "
         "adjacent above, disjoint below/above, into a hole, right above the head segment) and refusal of the k-th syscall of an op; "
-        "directed histories for the rare branches; for selected histories one variant per syscall position with that syscall refused. "
+        "directed histories for the rare branches and for reallocations refused by the OS in every alignment class; for selected "
+        "histories one variant per syscall position with that syscall refused. "
         "distinct_nontrivial = distinct (entry point, branch path reported by the model, kinds of OS calls) triples")
 
 ASSUMPTIONS = [
